@@ -64,10 +64,15 @@ structure Fixes where
   hiddenRoot : Bool := false
   chainRestore : Bool := false
   focusEvents : Bool := false
+  /-- (C01, not ours) `tickit_window_flush` hands no damage to a hidden root window -/
+  flushSkipsHiddenRoot : Bool := false
+  /-- (C02, not ours) `tickit_window_flush` intersects every damage rectangle with the root window's current area -/
+  flushClipsDamage : Bool := false
 deriving Repr, DecidableEq, Inhabited
 
 def Fixes.none : Fixes := {}
-def Fixes.all : Fixes := { hiddenRoot := true, chainRestore := true, focusEvents := true }
+def Fixes.all : Fixes :=
+  { hiddenRoot := true, chainRestore := true, focusEvents := true, flushSkipsHiddenRoot := true, flushClipsDamage := true }
 
 /-- Enough fuel for any walk along `parent` or `focused_child` in a tree without cycles. -/
 def treeFuel (t : Tree) : Nat := t.wins.size + 1
@@ -344,6 +349,18 @@ def flushRestore (fx : Fixes) (t : Tree) (exposed : List Rect) (c1 : List TermCa
     pure { tree := { t with root := { t.root with needsRestore := false } }, exposed := exposed, calls := c1 ++ c2 }
   else pure { tree := t, exposed := exposed, calls := c1 }
 
+/-- The rectangles `tickit_window_flush` hands to the root window's expose handlers: the stored damage; repaired:
+    nothing for a hidden root, and each rectangle intersected with the root's current area. -/
+def flushExposed (fx : Fixes) (t : Tree) : List Rect :=
+  if !t.root.needsExpose then []
+  else match t.wins[0]? with
+    | none => t.root.damage
+    | some r =>
+      if fx.flushSkipsHiddenRoot && !r.isVisible then []
+      else if fx.flushClipsDamage then
+        t.root.damage.filterMap (fun d => Rect.intersect d ⟨0, 0, r.rect.lines, r.rect.cols⟩)
+      else t.root.damage
+
 /-- `tickit_window_flush(root)`.  Rendering is not modelled: the harness binds no handler that draws, so the
     render buffer stays empty and `flush_to_term` makes no call on the terminal. -/
 def flush (fx : Fixes) (t : Tree) : Res FlushOut :=
@@ -351,7 +368,7 @@ def flush (fx : Fixes) (t : Tree) : Res FlushOut :=
   else do
     let t1 ← applyChanges { t with root := { t.root with needsLater := false } } t.root.changes
     flushRestore fx (flushExpose { t1 with root := { t1.root with changes := [] } })
-      (if t1.root.needsExpose then t1.root.damage else [])
+      (flushExposed fx t1)
       (if t1.root.needsExpose then [TermCall.vis 0] else [])
 
 /-! ### specification -/
